@@ -220,8 +220,8 @@ ROUND12 = {
     "C04": " Round 12: tolerances tighter than the default on a grid that needs the retry ladder.",
     "C05": " Round 12: interleaved repeated reactants against a generator built from the specification's closed forms.",
     "C08": " Round 12: the same definition built at once and step by step (species in another order).",
-    "C10": " Round 12: accounting against the specification's matrices; delayed species shared with the immediate part.",
-    "C15": " Round 12: time grids A, B, A in three trajectory orders.",
+    "C10": " Round 12: accounting against the specification's matrices; delayed species shared with the immediate part. Round 14: the delay+volume simulator idle with pending deliveries on a fine reporting grid.",
+    "C15": " Round 12: time grids A, B, A in three trajectory orders. Round 14: end points of a uniform prior.",
     "C18": " Round 12: method=None means the default scheme.",
 }
 
